@@ -62,7 +62,7 @@ SPEC = dict(
            # in flight together must each be resolved and answered with their own
            dict(name="localaddr", n_quick=25, n_thorough=300, shards_thorough=2, oracle=_oracle_localaddr, timeout=600),
            # concurrent responses announcing different configuration-change times: the newest must be the one recorded
-           dict(name="lmrace", n_quick=3, n_thorough=40, shards_thorough=2, oracle=oracle_lmrace, timeout=600),
+           dict(name="lmrace", n_quick=6, n_thorough=40, shards_thorough=2, oracle=oracle_lmrace, timeout=600),
            dict(name="slowrefresh", n_quick=9, n_thorough=60, oracle=oracle_slowrefresh, timeout=300)],
     level_text="Lock discipline by proof over regenerated facts: every access to a field of a mutex-owning struct in discovery, "
                "resolver/endpoint, resolver, arp, ndp is re-extracted from the source with the lock mode held (CFG dataflow, callees "
